@@ -142,15 +142,15 @@ func c16ColdStarts(c *Ctx) {
 
 // parMonitor composes the population monitors and records the interleaving of the reproduction goroutines
 type parMonitor struct {
-	wf      *c01Monitor
-	pop     *popMonitor
-	innov   *innovMonitor
-	delay   bool
-	dseed   int64
-	mu      sync.Mutex
-	events  []int64
-	storing map[int]bool
-	dcount  int64
+	wf                 *c01Monitor
+	pop                *popMonitor
+	innov              *innovMonitor
+	delay              bool
+	dseed              int64
+	mu                 sync.Mutex
+	events             []int64
+	storing            map[int]bool
+	dcount             int64
 	sorted, sortedCopy []*genetics.Species
 }
 
